@@ -214,3 +214,107 @@ fn verif_native_c10_domain() {
     }
     assert!(fails.is_empty(), "C10.N.domain: FAILSET{{{}}} {} of {} probes wrong, first: {:?}", ids.join(","), fails.len(), n, &fails[..fails.len().min(4)]);
 }
+
+//@n {"id":"C10.N.oneway","props":["C10","C03"],"tier":"quick","bound":"the one-way operators curvature (5 kinds) and gravity (5 formulas), alone and as a step of 6 pipelines (first, middle, last step; inside a macro; inside an inverted macro), 3 tuples; plus the geodesic operator's inverse on 2 near-antipodal pairs between 2 benign pairs; through Minimal","text":"the unsupported inverse of a one-way operator reports zero and leaves the data untouched (bit-identical), alone and when reached as a step of a pipeline, whose count is the minimum over its steps and therefore zero; the forward direction counts every tuple; a geodesic inverse problem that does not converge is NaN and not counted while its neighbours in the set are solved and counted, and whatever is returned as solved satisfies the forward problem"}
+#[test]
+fn verif_native_c10_oneway() {
+    let mut ctx = Minimal::default();
+    ctx.register_resource("one:way", "addone | curvature mean");
+    let input = [Coor4D::raw(55., 12., 100., 2020.), Coor4D::raw(59., 18., 200., 2021.), Coor4D::raw(-33., 151., 0., 2022.)];
+    let mut fails: Vec<String> = Vec::new();
+    let mut ids: Vec<String> = Vec::new();
+    let mut n = 0;
+    let same = |a: &[Coor4D], b: &[Coor4D]| a.iter().zip(b.iter()).all(|(x, y)| (0..4).all(|k| x[k].to_bits() == y[k].to_bits()));
+    let mut singles: Vec<String> = ["prime", "meridian", "gaussian", "mean", "azimuthal"].iter().map(|k| format!("curvature {k}")).collect();
+    singles.extend(["cassinis", "jeffreys", "grs67", "grs80", "welmec"].iter().map(|k| format!("gravity {k}")));
+    for (i, def) in singles.iter().enumerate() {
+        n += 1;
+        let op = match ctx.op(def) {
+            Ok(op) => op,
+            Err(e) => {
+                ids.push(format!("s{i}new"));
+                fails.push(format!("`{def}`: {e:?}"));
+                continue;
+            }
+        };
+        let mut data = input;
+        let f = ctx.apply(op, Fwd, &mut data).unwrap();
+        let mut data = input;
+        let r = ctx.apply(op, Inv, &mut data).unwrap();
+        if f != 3 || r != 0 || !same(&data, &input) {
+            ids.push(format!("s{i}"));
+            fails.push(format!("`{def}`: forward counts {f} of 3; inverse counts {r} and leaves {:?}", data));
+        }
+    }
+    // as pipeline steps: (definition, direction in which the one-way step would have to run backwards)
+    let pipes: [(&str, Direction); 6] = [
+        ("curvature mean | addone", Inv),
+        ("addone | curvature gaussian | addone | addone inv", Inv),
+        ("addone | gravity grs80", Inv),
+        ("addone | one:way | addone", Inv),
+        ("inv one:way", Fwd),
+        ("addone | addone inv | gravity welmec | noop", Inv),
+    ];
+    for (i, (def, dir)) in pipes.iter().enumerate() {
+        n += 1;
+        let op = match ctx.op(def) {
+            Ok(op) => op,
+            Err(e) => {
+                ids.push(format!("p{i}new"));
+                fails.push(format!("`{def}`: {e:?}"));
+                continue;
+            }
+        };
+        let d = format!("{dir:?}");
+        let mut data = input;
+        let r = ctx.apply(op, if d == "Fwd" { Fwd } else { Inv }, &mut data).unwrap();
+        let mut data2 = input;
+        let ok_dir = ctx.apply(op, if d == "Fwd" { Inv } else { Fwd }, &mut data2).unwrap();
+        if r != 0 || ok_dir != 3 {
+            ids.push(format!("p{i}"));
+            fails.push(format!("`{def}` {d}: counted {r} (must be 0: a step cannot run in this direction), result {:?}; the supported direction counted {ok_dir} of 3", data));
+        }
+    }
+    // geodesic: near-antipodal inverse problems Vincenty's iteration cannot solve
+    if let Ok(op) = ctx.op("geodesic") {
+        let easy = [Coor4D::raw(55., 12., 49., 2.), Coor4D::raw(-10., 20., 30., 60.)];
+        for (i, hard) in [Coor4D::raw(10., 0., -10., 179.9), Coor4D::raw(0., 0., 0.5, 179.7)].into_iter().enumerate() {
+            n += 1;
+            let set = [easy[0], hard, easy[1]];
+            let mut data = set;
+            let r = ctx.apply(op, Inv, &mut data).unwrap();
+            let valid = data.iter().filter(|c| c.0.iter().all(|e| !e.is_nan())).count();
+            let mut bad: Option<String> = None;
+            if valid > r || r > 3 {
+                bad = Some(format!("{valid} tuples look valid but {r} counted"));
+            }
+            for (k, res) in data.iter().enumerate() {
+                if res.0.iter().any(|e| e.is_nan()) {
+                    if k != 1 && bad.is_none() {
+                        bad = Some(format!("benign pair {k} not solved: {:?}", res));
+                    }
+                    continue;
+                }
+                // whatever is returned as solved must solve the forward problem
+                let mut check = [Coor4D::raw(set[k][0], set[k][1], res[0], res[2])];
+                let _ = ctx.apply(op, Fwd, &mut check);
+                let dlat = (check[0][0] - set[k][2]).abs();
+                let mut dlon = (check[0][1] - set[k][3]).abs() % 360.;
+                if dlon > 180. {
+                    dlon = 360. - dlon;
+                }
+                if !(dlat < 1e-6 && dlon < 1e-6) && bad.is_none() {
+                    bad = Some(format!("pair {k} {:?} returned as solved ({:?}) but misses the destination by ({dlat}, {dlon}) degrees", set[k], res));
+                }
+            }
+            if let Some(b) = bad {
+                ids.push(format!("g{i}"));
+                fails.push(format!("geodesic inverse: {b}"));
+            }
+        }
+    } else {
+        ids.push("gnew".into());
+        fails.push("geodesic does not instantiate".into());
+    }
+    assert!(fails.is_empty(), "C10.N.oneway: FAILSET{{{}}} {} of {} cases wrong, first: {:?}", ids.join(","), fails.len(), n, &fails[..fails.len().min(4)]);
+}
